@@ -74,14 +74,25 @@ structure SetMtuRes where
   coreMtu : Nat     -- the core's mtu afterwards
 deriving DecidableEq, Repr
 
-/-- `SetMtu(m)` with the core's current mtu `cur`: accepted iff the core accepts
-(`mtu > IKCP_OVERHEAD`); refused values leave the core untouched. -/
-def setMtu (c : Cfg) (cur : Nat) (m : Int) : SetMtuRes :=
-  if coreMtuArg c m ≤ (IKCP_OVERHEAD : Int) then { ok := false, coreMtu := cur }
-  else { ok := true, coreMtu := (coreMtuArg c m).toNat }
+/-- `KCP.SetMtu` as the session sees it is a verdict on the value.  The original core accepts
+iff the value exceeds `IKCP_OVERHEAD`. -/
+def coreAcceptsOrig (x : Int) : Bool := decide ((IKCP_OVERHEAD : Int) < x)
 
-/-- the core MTU right after `newUDPSession` (`SetMtu(IKCP_MTU_DEF)`, which must succeed) -/
-def initialCoreMtu (c : Cfg) : Nat := (setMtu c 0 IKCP_MTU_DEF).coreMtu
+/-- the repaired core (fix commits for D1/D2) additionally refuses a value whose segment size
+exceeds a pool buffer or is smaller than a segment already queued (`maxQueued` = longest
+payload in `snd_queue ∪ snd_buf`). -/
+def coreAcceptsFixed (maxQueued : Nat) (x : Int) : Bool :=
+  decide ((IKCP_OVERHEAD : Int) < x) && decide (x - (IKCP_OVERHEAD : Int) ≤ (mtuLimit : Int)) &&
+    decide ((maxQueued : Int) ≤ x - (IKCP_OVERHEAD : Int))
+
+/-- `SetMtu(m)` with the core's current mtu `cur`: accepted iff the core accepts; refused
+values leave the core untouched. -/
+def setMtu (c : Cfg) (coreOk : Int → Bool) (cur : Nat) (m : Int) : SetMtuRes :=
+  if coreOk (coreMtuArg c m) then { ok := true, coreMtu := (coreMtuArg c m).toNat }
+  else { ok := false, coreMtu := cur }
+
+/-- the core MTU right after `newUDPSession` (`SetMtu(IKCP_MTU_DEF)` on an empty core) -/
+def initialCoreMtu (c : Cfg) : Nat := (setMtu c coreAcceptsOrig 0 IKCP_MTU_DEF).coreMtu
 
 /-! ### the output callback installed by `newUDPSession` -/
 
